@@ -504,7 +504,7 @@ def diff (old new : Val) : Except Err (Option VDiff) := diffDepth compareLimit o
 
 def functionEnvKeys : List String :=
   ["names", "constant values", "predeclared values", "universal values", "function values", "global values",
-   "default parameter values", "free variables", "code"]
+   "default parameter values", "free variables", "parameters", "code"]
 
 /-- the `switch len(reasons)` of `diffEnv`; with no reason at all `reasons[:len(reasons)-1]` panics -/
 def joinReasons : List String → Except Err String
@@ -521,25 +521,28 @@ inductive EnvResult where
   | neverRun                                   -- (false, "target has never been run", nil, nil)
   | same                                       -- (true, "", nil, nil)
   | changed (reason : String) (d : VDiff)      -- (false, reason + " changed", d, nil)
+  | changedOpaque                              -- (false, "environment changed", nil, nil): too deep to compare or diff
   | error (e : String)                         -- a returned error
   | panic                                      -- a Go panic
 
 /-- the depth `diffEnv` compares and diffs with -/
 def envDepth : Nat := 1000
 
-/-- `(*function).diffEnv()`; `oldEnv = none` stands for `starlark.None` -/
-def diffEnv (oldEnv : Option Val) (newEnv : Val) : EnvResult :=
+/-- `(*function).diffEnv()`; `oldEnv = none` stands for `starlark.None`, `sameEncoding` for
+`f.newData == f.oldData` (the pickled forms of the two environments are the same text) -/
+def diffEnv (oldEnv : Option Val) (sameEncoding : Bool) (newEnv : Val) : EnvResult :=
   match oldEnv with
   | none => .neverRun
   | some old =>
+    if sameEncoding then .same else
     match equalDepth envDepth old newEnv with
-    | .error _ => .error "comparing function environments"
+    | .error _ => .changedOpaque
     | .ok true => .same
     | .ok false =>
       match old, newEnv with
       | .dict _, .dict _ =>
         match diffDepth envDepth old newEnv with
-        | .error .depth => .error "diffing environments"
+        | .error .depth => .changedOpaque
         | .error _ => .panic
         | .ok (some (.mapping o n edits)) =>
           let reasons := functionEnvKeys.filter fun k => hasEdit (.str k.toUTF8.toList) edits
